@@ -1,0 +1,11 @@
+//go:build verif
+
+// Exports of the two unexported JSON tree rewriters for the verification harness under /verif.
+// Compiled only with -tags verif; adds code, changes none.
+package jsonpb
+
+// VerifConvertBase64 runs convertBase64 (the Marshal-side rewriter) in place on a decoded JSON value.
+func VerifConvertBase64(data interface{}) { convertBase64(data) }
+
+// VerifConvertHex runs convertHex (the Unmarshal-side rewriter) in place on a decoded JSON value.
+func VerifConvertHex(data interface{}) { convertHex(data) }
